@@ -1,5 +1,6 @@
 import Blots.Lemmas.PrattRoundTrip
 import Blots.Lemmas.PrintLemmas
+import Blots.Lemmas.FormatSquashLayouts
 import Blots.Model.Format
 /-
   C07 — the formatter preserves program meaning: the parts that are *logic of the printer*.
@@ -24,16 +25,33 @@ import Blots.Model.Format
       the left spine of loosest-level operators), with the level facts from the generated table;
    6. `numberToSource` by cases; no minus sign for a number without sign bit.
 
+   7. THE LAYOUTS CHANGE ONLY LAYOUT.  `squash` (`Lemmas/FormatSquash.lean`) deletes, outside
+      string literals, spaces / tabs / line breaks and a comma followed by a closing bracket;
+      inside a literal nothing.  For every tree, width and indent the text pieces of every
+      width-driven layout (`fmtImplP`, `fmtMultiP`, `fmtLambdaP`, `fmtCondP`, `fmtBinP`,
+      `formatExpr`) squash to the same characters as the single-line print `expr_to_source` of
+      the tree without its comments — so the width changes nothing but layout
+      (`format_same_tokens_as_single_line`).  Two exclusions, both necessary:
+        * `namesOk`: no identifier-like string of the tree contains a quote character (true of
+          every parsed tree; an identifier `a"b` would open a literal);
+        * `noBare` / `lamOk`: FINDING — `format_lambda` and `format_single_line` print a lambda
+          with one required parameter as `x => …`, `expr_to_source` prints `(x) => …`, and
+          `format_single_line` falls back on `expr_to_source` below a conditional, a binary /
+          unary / postfix operation, an index, a field access and a spread.  So `xs via x => x + y`
+          is formatted `xs via (x) => x + y` when it fits and `xs⏎via x => x + y` when it does
+          not (`one_parameter_lambda_parens_depend_on_width`; the same on the real binary):
+          harmless for the meaning (same tree), but not "layout only".  `noBare` excludes such
+          lambdas everywhere (reference: `expr_to_source`), `lamOk` only below those nodes
+          (reference: `flat`, which prints the parameter list as the formatter does).
+
   NOT proved (and not provable in this model): that the *whole* printed text, lexed character
   by character by the PEG grammar, yields the item sequence `items e` (identifiers, numbers,
-  keywords, white space, brackets), and that the width-driven layouts (`fmtImplP`, … — total
-  functions since the C09 work, but only comment preservation is proved about them) print a
-  text with the same items as the single-line printer.  Those are tied to the real code by the
-  correspondence harness (model output = Rust output on generated programs) and by the
-  model-free reparse oracle of `harness/src/props/c07.rs` (format, parse again, compare trees).
+  keywords, white space, brackets).  That is tied to the real code by the correspondence
+  harness (model output = Rust output on generated programs) and by the model-free reparse
+  oracle of `harness/src/props/c07.rs` (format, parse again, compare trees).
 -/
 namespace Blots.C07
-open Blots.PrattRT Blots.PrintL
+open Blots.PrattRT Blots.PrintL Blots.Squash Blots.FormatL
 
 /-! ### 1. operator skeleton -/
 
@@ -168,6 +186,170 @@ theorem number_to_source_cases (x : F64) :
 theorem number_without_sign_prints_no_minus (x : F64) (h : x.neg = false) :
     '-' ∉ (numberToSource x).toList := numberToSource_no_minus x h
 
+/-! ### 7. the width-driven layouts change only layout -/
+
+/-- `squash` keeps a text without layout characters, commas and quotes as it is … -/
+theorem squash_keeps_solid_text (s : String)
+    (h : ∀ c ∈ s.toList, isLayout c = false ∧ c ≠ ',' ∧ isQuote c = false) : squash s = s := by
+  obtain ⟨h1, h2⟩ := squashL_solid s.toList h
+  unfold squash squashL
+  rw [h1, h2]
+  simp [flush, commas]
+
+/-- … and a string literal, whatever it contains (layout, commas, brackets, the other quote),
+    and goes on behind it -/
+theorem squash_keeps_string_literals (q : Char) (hq : q = '"' ∨ q = '\'') (s rest : List Char)
+    (h : q ∉ s) :
+    squash (String.ofList (q :: (s ++ q :: rest))) =
+      String.ofList (q :: (s ++ [q])) ++ squash (String.ofList rest) := by
+  have hq' : isQuote q = true := by rcases hq with rfl | rfl <;> decide
+  apply String.toList_inj.mp
+  simp only [squash, String.toList_ofList, String.toList_append, squashL_literal q hq' s _ h]
+  simp
+
+/-- texts compose: `squash (a ++ b)` is computed from the state `a` leaves behind -/
+theorem squash_append_from_state (a b : String) :
+    (squash (a ++ b)).toList =
+      outp (.out 0) a.toList ++
+        (outp (fin (.out 0) a.toList) b.toList ++ flush (fin (fin (.out 0) a.toList) b.toList)) := by
+  simp only [squash, String.toList_ofList, String.toList_append, squashL_append]
+
+/-- `flat` — the single-line form the layouts are compared with — is `expr_to_source` of the
+    tree without its comments, unless a lambda has exactly one required parameter -/
+theorem flat_is_single_line_print (e : Expr) (hb : noBare e = true) :
+    flat e = exprToSource (eraseComments e) := (src_erase e hb).symm
+
+/-- … and it is `format_single_line` wherever `format_expr_impl` uses that text -/
+theorem flat_is_format_single_line (e : Expr) (hl : lamOk e = true)
+    (h1 : hasNewline (fmtSingle e) = false) : fmtSingle e = flat e := single_flat e hl h1
+
+/-- erasing the comments of a tree without comments changes nothing -/
+theorem eraseComments_of_comment_free (e : Expr) (hc : anyComment e = false) :
+    eraseComments e = e := erase_id e hc
+
+/-- `noBare` is the stronger exclusion -/
+theorem noBare_implies_lamOk (e : Expr) (hb : noBare e = true) : lamOk e = true :=
+  lamOk_of_noBare e hb
+
+/-- MAIN THEOREM.  For every width, indent and tree (names without quotes, no lambda with
+    exactly one required parameter): the text pieces of `format_expr_impl`'s layout — the
+    comment pieces dropped; what remains of their lines is white space — and the single-line
+    print of the comment-free tree have the same characters up to layout. -/
+theorem layout_only_changes_layout (w indent : Nat) (e : Expr) (hn : namesOk e = true)
+    (hb : noBare e = true) :
+    squash (render (textOnly (fmtImplP w indent e))) = squash (exprToSource (eraseComments e)) := by
+  rw [squash_of_eqv (sq_impl e w indent hn (lamOk_of_noBare e hb)), exprToSource, src_erase e hb]
+
+/-- the same with the weaker exclusion `lamOk` (one-parameter lambdas allowed wherever
+    `format_single_line` itself prints them), against `flat` -/
+theorem layout_only_changes_layout_general (w indent : Nat) (e : Expr) (hn : namesOk e = true)
+    (hl : lamOk e = true) : squash (render (textOnly (fmtImplP w indent e))) = squash (flat e) :=
+  squash_of_eqv (sq_impl e w indent hn hl)
+
+/-- for a tree without comments: the layout text itself against `expr_to_source` of the tree -/
+theorem layout_of_comment_free_tree (w indent : Nat) (e : Expr) (hn : namesOk e = true)
+    (hb : noBare e = true) (hc : anyComment e = false) :
+    squash (fmtImpl w indent e) = squash (exprToSource e) := by
+  have := layout_only_changes_layout w indent e hn hb
+  rwa [textOnly_impl e w indent hc, erase_id e hc] at this
+
+/-- `format_expr` = `protect_statement_start ∘ format_expr_impl`: the parentheses around a
+    statement that starts with `-` are decided alike on the layout and on the single-line text -/
+theorem format_expr_only_changes_layout (e : Expr) (mw : Option Nat) (hn : namesOk e = true)
+    (hb : noBare e = true) :
+    squash (render (textOnly (formatExprP e mw))) =
+      squash (protectStatementStart (exprToSource (eraseComments e))) := by
+  rw [squash_of_eqv (eqv_formatExprP e mw hn (lamOk_of_noBare e hb)), exprToSource, src_erase e hb]
+
+theorem format_expr_only_changes_layout_general (e : Expr) (mw : Option Nat)
+    (hn : namesOk e = true) (hl : lamOk e = true) :
+    squash (render (textOnly (formatExprP e mw))) = squash (protectStatementStart (flat e)) :=
+  squash_of_eqv (eqv_formatExprP e mw hn hl)
+
+/-- … for a tree without comments, on the string `format_expr` returns -/
+theorem format_expr_of_comment_free_tree (e : Expr) (mw : Option Nat) (hn : namesOk e = true)
+    (hb : noBare e = true) (hc : anyComment e = false) :
+    squash (formatExpr e mw) = squash (protectStatementStart (exprToSource e)) := by
+  have := format_expr_only_changes_layout e mw hn hb
+  rwa [textOnly_formatExprP e mw hc, render_formatExprP, erase_id e hc] at this
+
+/-- `format_multiline` on every node `format_expr_impl` passes to it -/
+theorem multiline_layout_only_changes_layout (w indent : Nat) (e : Expr)
+    (hnl : ∀ args body, e ≠ .lambda args body) (hn : namesOk e = true) (hl : lamOk e = true) :
+    squash (render (textOnly (fmtMultiP w indent e))) = squash (flat e) :=
+  squash_of_eqv (sq_multi e w indent hn hl hnl)
+
+/-- `format_lambda`: argument list, `=>` with a space or a line break, parenthesised body -/
+theorem lambda_layout_only_changes_layout (w indent : Nat) (args : List LArg) (body : Expr)
+    (hn : namesOk (.lambda args body) = true) (hl : lamOk (.lambda args body) = true) :
+    squash (render (textOnly (fmtLambdaP w indent args body))) = squash (flat (.lambda args body)) :=
+  squash_of_eqv (sq_lambda w indent args body hn hl)
+
+/-- `format_conditional_multiline`: both `if … then` layouts, `else if` chains -/
+theorem conditional_layout_only_changes_layout (w indent : Nat) (c t e : Expr)
+    (hn : namesOk (.cond c t e) = true) (hl : lamOk (.cond c t e) = true) :
+    squash (render (textOnly (fmtCondP w indent c t e))) = squash (flat (.cond c t e)) :=
+  squash_of_eqv (sq_cond w indent c t e hn hl)
+
+/-- `format_binary_op_multiline`: the `via` / `into` / `where` chain layouts and the operator
+    on a new line -/
+theorem binary_layout_only_changes_layout (w indent : Nat) (op : BinOp) (l r : Expr)
+    (hn : namesOk (.bin op l r) = true) (hl : lamOk (.bin op l r) = true) :
+    squash (render (textOnly (fmtBinP w indent op l r))) = squash (flat (.bin op l r)) :=
+  squash_of_eqv (sq_bin w indent op l r hn hl)
+
+/-- where `format_expr_impl` takes the single-line path its result IS `format_single_line` -/
+theorem single_line_path_is_fmtSingle (e : Expr) (w indent : Nat)
+    (h1 : ∀ args body, e ≠ .lambda args body) (h2 : ∀ ss r, e ≠ .doBlock ss r)
+    (hnl : hasNewline (fmtSingle e) = false) (hfit : indent + blen (firstLine (fmtSingle e)) ≤ w) :
+    fmtImpl w indent e = fmtSingle e := fmtImpl_single e w indent h1 h2 hnl hfit
+
+/-- whenever the single-line text is one line, every width prints its characters -/
+theorem format_squashes_to_single_line (e : Expr) (mw : Option Nat) (hn : namesOk e = true)
+    (hl : lamOk e = true) (h1 : hasNewline (fmtSingle e) = false) :
+    squash (formatExpr e mw) = squash (protectStatementStart (fmtSingle e)) := by
+  have hc := anyComment_false_of_single h1
+  have := format_expr_only_changes_layout_general e mw hn hl
+  rwa [textOnly_formatExprP e mw hc, render_formatExprP, ← single_flat e hl h1] at this
+
+/-- COROLLARY: layout is the only thing the width changes.  For a tree without comments the
+    outputs of `format_expr` at any two widths have the same characters up to layout … -/
+theorem format_same_tokens_as_single_line (e : Expr) (w w' : Nat) (hn : namesOk e = true)
+    (hl : lamOk e = true) (hc : anyComment e = false) :
+    squash (formatExpr e (some w)) = squash (formatExpr e (some w')) := by
+  have h1 := format_expr_only_changes_layout_general e (some w) hn hl
+  have h2 := format_expr_only_changes_layout_general e (some w') hn hl
+  rw [textOnly_formatExprP e _ hc, render_formatExprP] at h1 h2
+  rw [h1, h2]
+
+/-- … and for any tree the text pieces do (the comment pieces are the same at every width:
+    C09 `comments_preserved`) -/
+theorem format_same_tokens_at_any_width (e : Expr) (mw mw' : Option Nat) (hn : namesOk e = true)
+    (hl : lamOk e = true) :
+    squash (render (textOnly (formatExprP e mw))) = squash (render (textOnly (formatExprP e mw'))) := by
+  rw [format_expr_only_changes_layout_general e mw hn hl,
+    format_expr_only_changes_layout_general e mw' hn hl]
+
+/-- FINDING (why `lamOk` is needed): the parentheses around a single lambda parameter depend
+    on the width.  `xs via x => x + y` fits in 80 columns and is printed by `expr_to_source`
+    — `(x) =>` —, in 10 columns `format_binary_op_multiline` hands the lambda to
+    `format_lambda` — `x =>`.  Same tree, but more than layout. -/
+theorem one_parameter_lambda_parens_depend_on_width :
+    let e : Expr := .bin .via (.ident "xs") (.lambda [.req "x"] (.bin .add (.ident "x") (.ident "y")))
+    formatExpr e (some 80) = "xs via (x) => x + y" ∧
+    formatExpr e (some 10) = "xs\nvia x => x + y" ∧
+    squash (formatExpr e (some 80)) ≠ squash (formatExpr e (some 10)) ∧
+    namesOk e = true ∧ anyComment e = false ∧ lamOk e = false := by
+  decide +kernel
+
+/-- why `namesOk` is needed: a "name" with a quote character opens a literal, in which line
+    breaks are not layout -/
+theorem quote_in_a_name_breaks_layout_equivalence :
+    let e : Expr := .list [.mk [] (.ident "a\"b") none, .mk [] (.ident "c\"d") none]
+    squash (formatExpr e (some 80)) ≠ squash (formatExpr e (some 5)) ∧
+    lamOk e = true ∧ anyComment e = false ∧ namesOk e = false := by
+  decide +kernel
+
 /-! #### examples: the hypotheses are satisfiable by non-trivial values -/
 
 section examples
@@ -233,6 +415,56 @@ example : (⟨0x4008000000000000⟩ : F64).isIntegral = true ∧
     (⟨0x4008000000000000⟩ : F64).neg = false := by decide +kernel
 example : ¬ ((⟨0x3FE0000000000000⟩ : F64).isIntegral = true ∧
     F64.flt (⟨0x3FE0000000000000⟩ : F64).abs f64_1e15 = true) := by decide +kernel
+
+/-- layouts: a nested list / record / conditional / lambda tree at widths 1, 20, 80 — three
+    different strings, one squash; the hypotheses of the theorems hold for it -/
+private abbrev ex7 : Expr :=
+  .list [.mk [] (.str "a, b ]") none,
+    .mk [] (.record [.mk [] (.static "k") (.cond (.ident "c") (.ident "t") (.ident "u")) none]) none,
+    .mk [] (.lambda [.req "x", .req "y"] (.bin .add (.bin .mul (.ident "x") (.ident "y")) (.ident "z"))) none]
+example : namesOk ex7 = true ∧ noBare ex7 = true ∧ lamOk ex7 = true ∧ anyComment ex7 = false := by
+  decide
+example : formatExpr ex7 (some 80) = "[\"a, b ]\", {k: if c then t else u}, (x, y) => x * y + z]" := by
+  decide +kernel
+example : formatExpr ex7 (some 20) =
+    "[\n  \"a, b ]\",\n  {\n    k: if c then\n      t\n    else\n      u,\n  },\n  (x, y) =>\n    x * y + z,\n]" := by
+  decide +kernel
+example : formatExpr ex7 (some 1) ≠ formatExpr ex7 (some 20) ∧
+    formatExpr ex7 (some 20) ≠ formatExpr ex7 (some 80) ∧
+    squash (formatExpr ex7 (some 1)) = squash (formatExpr ex7 (some 80)) ∧
+    squash (formatExpr ex7 (some 20)) = squash (formatExpr ex7 (some 80)) ∧
+    squash (formatExpr ex7 (some 80)) = "[\"a, b ]\",{k:ifcthentelseu},(x,y)=>x*y+z]" := by
+  decide +kernel
+/-- a binary chain with a call, a one-parameter lambda where `lamOk` allows it (an argument) -/
+private abbrev ex7b : Expr :=
+  .assign "r" (.bin .into (.bin .via (.ident "xs") (.lambda [.req "p", .opt "q"] (.bin .mul (.ident "p") (.ident "q"))))
+    (.call (.ident "g") [.lambda [.req "v"] (.un .negate (.ident "v"))]))
+example : namesOk ex7b = true ∧ lamOk ex7b = false ∧ noBare ex7b = false := by decide
+/-- … the same with two parameters: inside the theorems -/
+private abbrev ex7c : Expr :=
+  .assign "r" (.bin .into (.bin .via (.ident "xs") (.lambda [.req "p", .opt "q"] (.bin .mul (.ident "p") (.ident "q"))))
+    (.call (.ident "g") [.lambda [.req "v", .rest "o"] (.un .negate (.ident "v"))]))
+example : namesOk ex7c = true ∧ lamOk ex7c = true ∧ noBare ex7c = true ∧ anyComment ex7c = false := by
+  decide
+example : formatExpr ex7c (some 1) ≠ formatExpr ex7c (some 20) ∧
+    formatExpr ex7c (some 20) ≠ formatExpr ex7c (some 80) ∧
+    squash (formatExpr ex7c (some 1)) = squash (formatExpr ex7c (some 80)) ∧
+    squash (formatExpr ex7c (some 20)) = squash (formatExpr ex7c (some 80)) := by
+  decide +kernel
+/-- a one-parameter lambda where `format_single_line` prints it itself (`lamOk`, not `noBare`) -/
+example : lamOk (.call (.ident "map") [.ident "xs", .lambda [.req "x"] (.ident "x")]) = true ∧
+    noBare (.call (.ident "map") [.ident "xs", .lambda [.req "x"] (.ident "x")]) = false := by decide
+/-- a statement starting with `-`, a do-block with comments: the text pieces only -/
+private abbrev ex7d : Expr :=
+  .doBlock [.mk ["// lead"] (.un .negate (.ident "a")) (some "// trail")] (.mk [] (.ident "b") none)
+example : namesOk ex7d = true ∧ noBare ex7d = true ∧ anyComment ex7d = true := by decide
+example : render (textOnly (formatExprP ex7d (some 80))) = "do {\n  \n  (-a)  \n  return b\n}" ∧
+    exprToSource (eraseComments ex7d) = "do {\n  (-a)\n  return b\n}" := by decide +kernel
+/-- squash itself -/
+example : squash "[\n  1,\n  \"a, b ]\",\n]" = "[1,\"a, b ]\"]" := by decide
+example : squash "f(a, 'x ,)' ,\n)" = "f(a,'x ,)')" := by decide
+example : squash "a, b" = "a,b" := by decide
+example : squash "x => x" ≠ squash "(x) => x" := by decide
 end examples
 
 end Blots.C07
